@@ -58,7 +58,7 @@ func vfStickyURLs() []*url.URL {
 		{Scheme: "http", Host: "a:80", Path: "/x"},
 		{Scheme: "http", Host: "b:81", Path: "/y", User: url.UserPassword("u", "p"), RawQuery: "q=1|2"},
 		{Scheme: "https", Host: "c", Path: "/a/b", RawPath: "/a%2Fb"},
-		{Scheme: "http", Host: "a:80", Path: "/z"},
+		{Scheme: "http", Host: "a:80", Path: "/z?w#f%", RawPath: "/z%3Fw%23f%25"},
 	}
 }
 
@@ -150,6 +150,7 @@ func VerifC11Routing() {
 		verifAssert("rb-ok", err == nil)
 		serve, pool = rb.ServeHTTP, rb
 	}
+	us = us[1:] // members: userinfo+query, escaped slash, escaped ?#% — the plain one is not needed here
 	for i := 0; i < 3; i++ {
 		w := verifInt(verifName("w", i))
 		verifAssume(verifAnd(w >= 1, w <= 3))
@@ -171,6 +172,10 @@ func VerifC11Routing() {
 	setCookie := rec.Header().Get("Set-Cookie")
 	verifAssert("fresh-cookie-issued", setCookie != "")
 	// 2. a request carrying the cookie issued for `target` goes to target, whatever the rotation
+	// state and the weights (also when the server is drained to weight 0 but still a member)
+	if verifBool("drainTarget") {
+		verifAssert("reweight-ok", pool.UpsertServer(us[target], Weight(0)) == nil)
+	}
 	cookie := &http.Cookie{Name: "sid", Value: codec.Get(us[target])}
 	req := &http.Request{URL: &url.URL{Path: "/r"}, Header: http.Header{}}
 	req.AddCookie(cookie)
